@@ -47,19 +47,12 @@ structure State where
   active : List Context := []                -- `_active_ctx.contexts`, most recent first
   deriving Repr, Inhabited
 
-/-- `ContextChain.defaults` : defaults of the first context (in lookup order) that has a rule -/
+/-- `ContextChain.defaults` (F64 repair): the parameters of the most recently enabled context, which already
+    carries what it inherited from the contexts that were active when it was enabled -/
 def chainDefaults (st : State) : List (String × Rat) :=
-  -- ChainMap.values() iterates keys oldest-map-first and looks each up front-most first;
-  -- the first value returned is the context owning the first key of the oldest map
-  match st.active.reverse.find? (fun c => !c.rules.isEmpty) with
-  | none => []
-  | some oldest =>
-    match oldest.rules with
-    | [] => []
-    | r :: _ =>
-      match st.active.find? (fun c => c.rules.any (fun r' => sameKey (r'.src, r'.dst) (r.src, r.dst))) with
-      | some c => c.defaults
-      | none => []
+  match st.active with
+  | [] => []
+  | c :: _ => c.defaults
 
 inductive EnableErr | unknown (name : String) deriving Repr
 
